@@ -36,14 +36,14 @@ def _fixed(kid):
 KN = {1: 'real', 2: 'nat', 3: 'int'}
 OPN = {1: 'or', 2: 'and', 3: 'eq', 4: 'ne', 5: 'ge', 6: 'le', 7: 'gt', 8: 'lt', 9: 'bor', 10: 'band', 11: 'add', 12: 'sub', 13: 'mul', 14: 'div', 15: 'rem', 16: 'pow'}
 MANUAL_KF = os.environ.get('C04_KF_MANUAL')     # testing aid while the ids are not yet in known_findings.json
-def kq(name, entry, defs, kf_excl=(), kf_only=None, **kw):
+def kq(name, entry, defs, kf_excl=(), kf_only=None, cflags=None, **kw):
     defs = dict(defs)
     if os.environ.get('C04_BACKEND'): kw['backend'] = os.environ['C04_BACKEND']     # debugging aid
     if MANUAL_KF:
         for k in kf_excl: defs['KF_EXCL_' + k.replace('-', '_')] = 1
         if kf_only: defs['KF_ONLY_' + kf_only.replace('-', '_')] = 1
-        return Query(name, 'C04_kernels.cpp', entry, defs, cflags=PRIV, mem_gb=8, **kw)
-    return Query(name, 'C04_kernels.cpp', entry, defs, cflags=PRIV, mem_gb=8, kf_excl=kf_excl, kf_only=kf_only, **kw)
+        return Query(name, 'C04_kernels.cpp', entry, defs, cflags=cflags or PRIV, mem_gb=8, **kw)
+    return Query(name, 'C04_kernels.cpp', entry, defs, cflags=cflags or PRIV, mem_gb=8, kf_excl=kf_excl, kf_only=kf_only, **kw)
 INTS = 28            # kind set {Natural, Integer}
 KF_NAT = 'C04-natural-cmp'
 KF_NATR = 'C04-natural-rem'
@@ -65,9 +65,7 @@ def kernel_queries(tier):
     SOV = ['--signed-overflow-check']        # 'result of signed mod is not representable': INT64_MIN % -1 traps on x86-64
     for lk in (1, 2, 3):
         for rk in (1, 2, 3):
-            for cls, cn in ((0, 'zero'), (1, 'minus1'), (2, 'other')):      # divisor classes: see DIVCLS in the harness
-                if cls == 1 and rk == 2: continue                            # a Natural divisor inside int64 is never -1
-                qs.append(kq('kernel/rem/%s-%s/%s' % (KN[lk], KN[rk], cn), 'h_rem', {'LK': lk, 'RK': rk, 'DIVCLS': cls}, kf_excl=EX, backend=REM_BACKEND, extra_cbmc=SOV, timeout=300))
+            qs.append(kq('kernel/rem/%s-%s' % (KN[lk], KN[rk]), 'h_rem', {'LK': lk, 'RK': rk}, kf_excl=EX, backend=REM_BACKEND, extra_cbmc=SOV, timeout=300))
     qs.append(kq('kernel/rem/kf-zero', 'h_rem', {'LK': 0, 'RK': 0}, kf_only='C04-rem-zero', extra_cbmc=SOV, timeout=300))
     qs.append(kq('kernel/rem/kf-overflow', 'h_rem', {'LK': 0, 'RK': 0}, kf_only='C04-rem-overflow', extra_cbmc=SOV, timeout=300))
     qs.append(kq('kernel/rem/kf-natural', 'h_rem', {'LK': 0, 'RK': 0, 'REM_WIDE': 1}, kf_only=KF_NATR, timeout=300))
